@@ -187,6 +187,8 @@ func c13Level(st *engine.Step) {
 			t.Flags[k] = "full" // a password login of an account without a second factor completes at once
 		} else if u == "" && u2 != "" {
 			t.Flags[k] = "half" // the cookie of the same request restored a user; the login itself did not complete
+		} else if u2 != u {
+			t.Flags[k] = "half" // the session names another user now, but no login of that user was completed
 		}
 	case (tag.Kind == "totp_validate" || tag.Kind == "sms_validate") && o.OK() && (o.SessBefore["totp_pending"] == u2 || o.SessBefore["sms_pending"] == u2) && o.SessAfter["totp_pending"] == "" && o.SessAfter["sms_pending"] == "":
 		t.Flags[k] = "full" // a pending login was completed by its second factor
